@@ -29,6 +29,7 @@ func init() {
 func runC06(c *Ctx) {
 	p := c.P
 	s := p.Selectors()
+	s.checkErrorsNotSwallowed(c, "errors-not-swallowed", inPkgs("command"), "a signal that could not be delivered would be reported as delivered, so no escalation follows")
 	s.checkFailedShutdownCommandKills(c)
 	s.checkOrderedOrderComplete(c)
 	requireN("StopCore", s.StopCores, 1, 1)
